@@ -9,6 +9,7 @@ import (
 // PacketStore is a goroutine safe packet store.
 type PacketStore struct {
 	packets map[packet.ID]packet.Generic
+	order   []packet.ID
 	mutex   sync.RWMutex
 }
 
@@ -42,6 +43,11 @@ func (s *PacketStore) Save(pkt packet.Generic) {
 
 	id, ok := packet.GetID(pkt)
 	if ok {
+		// remember the order in which ids have been saved first
+		if _, exists := s.packets[id]; !exists {
+			s.order = append(s.order, id)
+		}
+
 		s.packets[id] = pkt
 	}
 }
@@ -60,6 +66,16 @@ func (s *PacketStore) Delete(id packet.ID) {
 	s.mutex.Lock()
 	defer s.mutex.Unlock()
 
+	// forget the position of the id
+	if _, exists := s.packets[id]; exists {
+		for i, oid := range s.order {
+			if oid == id {
+				s.order = append(s.order[:i], s.order[i+1:]...)
+				break
+			}
+		}
+	}
+
 	// delete packet
 	delete(s.packets, id)
 }
@@ -69,10 +85,10 @@ func (s *PacketStore) All() []packet.Generic {
 	s.mutex.RLock()
 	defer s.mutex.RUnlock()
 
-	// collect packets
+	// collect packets in the order they have been saved first
 	var all []packet.Generic
-	for _, pkt := range s.packets {
-		all = append(all, pkt)
+	for _, id := range s.order {
+		all = append(all, s.packets[id])
 	}
 
 	return all
@@ -85,4 +101,5 @@ func (s *PacketStore) Reset() {
 
 	// reset packets
 	s.packets = make(map[packet.ID]packet.Generic)
+	s.order = nil
 }
